@@ -304,6 +304,9 @@ class TradingEnv(gymnasium.Env):
                 "The current episode has ended. To start a new episode use "
                 "TradingEnv.reset()."
             )
+        # The contract clock is process-wide: restore this environment's time
+        # in case another environment has moved it since the last call.
+        AbstractContract.now = self._now
         self._queue_actions.appendleft(action)
         action = self._queue_actions.pop()
         self._process_latent_events()
